@@ -381,15 +381,6 @@ def evaluate(kind, cols, required, feats):
     return mapping, err, rec, line, I, clash
 
 
-def pre_build(ctx):
-    # re-translate import_export/_name_mapping.py (Gen/NameMapping_gen.v, tied by Proofs/NameMapTie.v)
-    import translate_name_mapping
-
-    ok, msg = translate_name_mapping.regenerate()
-    if not ok:
-        raise RuntimeError("translator refused _name_mapping.py: %s" % msg)
-
-
 def run(ctx):
     rng = ctx.rng
     n = 2500 if ctx.quick() else 40000
